@@ -226,18 +226,26 @@ class Scratch:
         self.dir = tempfile.mkdtemp(prefix="ldar_c18_")
         self.n = 0
 
-    def write(self, trees):
-        """writes each tree as YAML; returns (paths, trees as the InputManager's loader reads them)"""
+    def write(self, trees, as_json=()):
+        """writes each tree as YAML (indices in `as_json`: as a .json file, the other format
+        read_parameter_file accepts); returns (paths, trees as the InputManager's loader reads them)"""
         paths, seen = [], []
         sub = os.path.join(self.dir, f"s{self.n}")
         self.n += 1
         os.makedirs(sub)
         for i, t in enumerate(trees):
-            p = os.path.join(sub, f"f{i}.yaml")
-            with open(p, "w") as fh:
-                fh.write(yaml.safe_dump(t, sort_keys=False, allow_unicode=True))
-            with open(p) as fh:
-                seen.append(yaml.load(fh.read(), Loader=yaml.SafeLoader))
+            if i in as_json:
+                p = os.path.join(sub, f"f{i}.json")
+                with open(p, "w") as fh:
+                    fh.write(json.dumps(t, allow_nan=False))
+                with open(p) as fh:
+                    seen.append(json.loads(fh.read()))
+            else:
+                p = os.path.join(sub, f"f{i}.yaml")
+                with open(p, "w") as fh:
+                    fh.write(yaml.safe_dump(t, sort_keys=False, allow_unicode=True))
+                with open(p) as fh:
+                    seen.append(yaml.load(fh.read(), Loader=yaml.SafeLoader))
             paths.append(Path(p))
         self._last = sub
         return paths, seen
